@@ -5,6 +5,9 @@
 //	dec <cells|ss|emu> <style> <tok>*         impl = cells the real parser returned (emu: final pen)
 //	rt  <cells|ss> <cell>*                    impl = cells after the real encode → parse round trip
 //	rtq <cells|ss> <cell>*                    the same with VAXIS_FORCE_LEGACY_SGR applied
+//	encb <cells|ss> <caps> <cell>*            impl = hex of the exact string the real producer wrote (byte level)
+//	decb <cells|ss> <style> <hex> <table>     impl = cells the real parser returned for that exact string; table =
+//	                                          rune length of the first grapheme cluster (uniseg) of the suffix at every rune offset
 //
 // cell = hex(grapheme):fg,bg,ul,ulstyle,attr   tok = S<params text> | T<hex(grapheme)>
 // caps bit 0 = rgb, bit 1 = styledUnderlines, bit 2 = VAXIS_FORCE_LEGACY_SGR applied.
@@ -16,10 +19,12 @@ import (
 	"os"
 	"strconv"
 	"strings"
+	"unicode/utf8"
 
 	"git.sr.ht/~rockorager/vaxis"
 	"git.sr.ht/~rockorager/vaxis/ansi"
 	"git.sr.ht/~rockorager/vaxis/widgets/term"
+	"github.com/rivo/uniseg"
 	"verifharness/fakeconsole"
 	"verifharness/gen"
 	"verifharness/hx"
@@ -36,6 +41,7 @@ type env struct {
 	fc      map[int]*fakeconsole.Console
 	plain   *vaxis.Vaxis // for NewStyledString
 	emu     *term.Model
+	ndec    int
 }
 
 const renderW = 24
@@ -358,11 +364,105 @@ func (e *env) doRt(which string, legacy bool, cells []vaxis.Cell) (res string) {
 	return res
 }
 
+func (e *env) doEncB(which string, caps int, cells []vaxis.Cell) (res string) {
+	if err := e.setLegacy(caps&4 != 0); err != nil {
+		return "error:" + err.Error()
+	}
+	defer e.setLegacy(false)
+	panicked, _ := hx.Guard(func() {
+		switch which {
+		case "cells":
+			res = hexOrDash(vaxis.EncodeCells(cells))
+		case "ss":
+			res = hexOrDash((&vaxis.StyledString{Cells: cells}).Encode())
+		default:
+			res = "bad-op"
+		}
+	})
+	if panicked {
+		return "panic"
+	}
+	return res
+}
+
+func hexOrDash(s string) string {
+	if s == "" {
+		return "-"
+	}
+	return hx.Hex(s)
+}
+
+// clusterTable: for every rune offset of s, the number of runes of the first grapheme cluster of the rest.
+func clusterTable(s string) string {
+	if s == "" {
+		return "-"
+	}
+	var out []string
+	for i := range s {
+		g, _, _, _ := uniseg.FirstGraphemeClusterInString(s[i:], -1)
+		out = append(out, strconv.Itoa(len([]rune(g))))
+	}
+	return strings.Join(out, ",")
+}
+
+func (e *env) doDecB(which string, dflt vaxis.Style, s string) (res string) {
+	panicked, msg := hx.Guard(func() {
+		switch which {
+		case "cells":
+			res = e.stable(func() string { return cellsStr(vaxis.ParseStyledString(s)) })
+		case "ss":
+			res = cellsStr(e.plain.NewStyledString(s, dflt).Cells)
+		default:
+			res = "bad-op"
+		}
+	})
+	if panicked {
+		e.r.Count("panic:" + which + ":" + strings.SplitN(msg, "[", 2)[0])
+		return "panic"
+	}
+	return res
+}
+
+// decb emits the byte-level case for the exact string s.
+func (e *env) decb(which string, dflt vaxis.Style, s string) {
+	if !utf8.ValidString(s) {
+		return
+	}
+	e.emit(fmt.Sprintf("decb %s %s %s %s", which, styleStr(dflt), hexOrDash(s), clusterTable(s)))
+	e.r.Count("decb:" + which)
+}
+
 func (e *env) exec(op []string) (string, bool) {
 	if len(op) < 2 {
 		return "", false
 	}
 	switch op[0] {
+	case "encb":
+		if len(op) < 3 {
+			return "", false
+		}
+		caps, err := strconv.Atoi(op[2])
+		if err != nil {
+			return "", false
+		}
+		cells, ok := parseCells(op[3:])
+		if !ok {
+			return "", false
+		}
+		return e.doEncB(op[1], caps, cells), true
+	case "decb":
+		if len(op) != 5 {
+			return "", false
+		}
+		st, ok := parseStyle(op[2])
+		if !ok {
+			return "", false
+		}
+		str, ok := unhex(op[3])
+		if !ok {
+			return "", false
+		}
+		return e.doDecB(op[1], st, str), true
 	case "enc":
 		if len(op) < 3 {
 			return "", false
@@ -604,6 +704,26 @@ func (e *env) genRt(rng *gen.Rng) {
 		}
 		e.emit(strings.TrimSpace(fmt.Sprintf("%s %s %s", kind, which, strings.Join(cs, " "))))
 		r.Count(kind + ":" + which)
+		if r.Thorough || i%3 == 0 { // the same case at the byte level: the exact string, and every codec reading it
+			caps := 3
+			if kind == "rtq" {
+				caps = 7
+			}
+			e.emit(strings.TrimSpace(fmt.Sprintf("encb %s %d %s", which, caps, strings.Join(cs, " "))))
+			r.Count("encb:" + which)
+			if cells, ok := parseCells(cs); ok {
+				str := ""
+				e.setLegacy(caps&4 != 0)
+				if which == "cells" {
+					str = vaxis.EncodeCells(cells)
+				} else {
+					str = (&vaxis.StyledString{Cells: cells}).Encode()
+				}
+				e.setLegacy(false)
+				e.decb("cells", vaxis.Style{}, str)
+				e.decb("ss", vaxis.Style{}, str)
+			}
+		}
 	}
 	// legacy quirk applied: each codec must still read back its own extended colours (16-255 and RGB, fg and bg)
 	for _, which := range []string{"cells", "ss"} {
@@ -634,6 +754,12 @@ var consumers = []string{"cells", "ss", "emu"}
 
 func (e *env) dec(which string, dflt vaxis.Style, toks ...string) {
 	e.emit(strings.TrimSpace(fmt.Sprintf("dec %s %s %s", which, styleStr(dflt), strings.Join(toks, " "))))
+	e.ndec++
+	if which != "emu" && (e.r.Thorough || e.ndec%2 == 0 || len(toks) > 3) {
+		if str, ok := toksString(toks); ok {
+			e.decb(which, dflt, str)
+		}
+	}
 }
 
 func randNum(rng *gen.Rng) string {
